@@ -3,6 +3,8 @@
 # worktree and run EVERY quick check against it through VERIF_REPO; any non-zero exit is an alarm to triage.
 patch=$(readlink -f "$1"); runs=${2:-40000}
 WT=/tmp/probe_repo
+# one user of the scratch worktree at a time (apply .. check .. undo is one critical section)
+exec 9>/tmp/probe_repo.lock; flock 9
 cd /verif
 [ -d $WT ] || git -C /repo worktree add -q --detach $WT HEAD
 git -C $WT checkout -q -- . && git -C $WT apply "$patch" || { echo "patch does not apply"; exit 3; }
